@@ -19,6 +19,7 @@ import (
 	"github.com/plgd-dev/go-coap/v3/message"
 	"github.com/plgd-dev/go-coap/v3/message/codes"
 	"github.com/plgd-dev/go-coap/v3/message/pool"
+	"github.com/plgd-dev/go-coap/v3/net/client"
 	"github.com/plgd-dev/go-coap/v3/net/responsewriter"
 	"github.com/plgd-dev/go-coap/v3/options"
 	"github.com/plgd-dev/go-coap/v3/tcp"
@@ -42,7 +43,7 @@ type Event struct {
 	// answers; the scenario goes on once it has failed
 	ID int `json:"id"`
 	// inject: how the handler behaves
-	Beh   string `json:"beh,omitempty"`   // plain | nested | gated
+	Beh   string `json:"beh,omitempty"`   // plain | nested | nestedobs | gated | busy (nestedobs: the nested requests are Observe registrations)
 	Depth int    `json:"depth,omitempty"` // nested: number of sequential nested requests the handler makes (1-3)
 	Con   bool   `json:"con,omitempty"`
 	// NoWait: the event is applied right behind the previous one, without waiting for quiescence
@@ -66,6 +67,7 @@ type Scenario struct {
 
 type getter interface {
 	Get(ctx context.Context, path string, opts ...message.Option) (*pool.Message, error)
+	Observe(ctx context.Context, path string, observeFunc func(req *pool.Message), opts ...message.Option) (client.Observation, error)
 	Close() error
 	Done() <-chan struct{}
 }
@@ -117,10 +119,37 @@ func Exec(t *testing.T, sc Scenario, r *evid.Run) *evid.Failure {
 			hlog = append(hlog, hrec{id: id, t: time.Since(start)})
 			mu.Unlock()
 			switch parts[2] {
-			case "nested":
+			case "nested", "nestedobs":
 				for d := 0; d < depthOf[id]; d++ {
 					ctx, cancel := context.WithTimeout(context.Background(), 20*time.Second)
-					resp, err := c.Get(ctx, fmt.Sprintf("/n/%d/%d", id, d))
+					var resp *pool.Message
+					var err error
+					var obsBody []byte
+					isObs := false
+					if parts[2] == "nestedobs" {
+						// the other blocking request of the client API: an observe registration
+						// (it returns with the first response, which the callback gets)
+						// (the callback owns the message only while it runs: the body is read there)
+						first := make(chan []byte, 1)
+						_, err = c.Observe(ctx, fmt.Sprintf("/n/%d/%d", id, d), func(m *pool.Message) {
+							b, _ := m.ReadBody()
+							select {
+							case first <- append([]byte(nil), b...):
+							default:
+							}
+						})
+						if err == nil {
+							// the registration is signalled before the callback runs
+							select {
+							case obsBody = <-first:
+								isObs = true
+							case <-time.After(5 * time.Second):
+								err = fmt.Errorf("the registration response was not given to the callback within 5 s of Observe returning")
+							}
+						}
+					} else {
+						resp, err = c.Get(ctx, fmt.Sprintf("/n/%d/%d", id, d))
+					}
 					cancel()
 					if err != nil {
 						mu.Lock()
@@ -128,7 +157,10 @@ func Exec(t *testing.T, sc Scenario, r *evid.Run) *evid.Failure {
 						mu.Unlock()
 						break
 					}
-					b, _ := resp.ReadBody()
+					b := obsBody
+					if !isObs {
+						b, _ = resp.ReadBody()
+					}
 					if want := fmt.Sprintf("N%d.%d", id, d); string(b) != want {
 						mu.Lock()
 						hlog[idx].nestErr = fmt.Sprintf("nested response %q, want %q", b, want)
@@ -249,7 +281,7 @@ func Exec(t *testing.T, sc Scenario, r *evid.Run) *evid.Failure {
 					key := fmt.Sprintf("%d/%d", e.ID, d)
 					if rq, ok := pendingNested[key]; ok {
 						delete(pendingNested, key)
-						w.ToLib(wire.Respond(w, rq, 69, nil, []byte(fmt.Sprintf("N%d.%d", e.ID, d)), &nextMID))
+						w.ToLib(wire.Respond(w, rq, 69, obsOpts(rq), []byte(fmt.Sprintf("N%d.%d", e.ID, d)), &nextMID))
 						bubble.Wait()
 						scan()
 					}
@@ -328,7 +360,7 @@ func Exec(t *testing.T, sc Scenario, r *evid.Run) *evid.Failure {
 			for key, rq := range pendingNested {
 				delete(pendingNested, key)
 				parts := strings.Split(key, "/")
-				w.ToLib(wire.Respond(w, rq, 69, nil, []byte("N"+parts[0]+"."+parts[1]), &nextMID))
+				w.ToLib(wire.Respond(w, rq, 69, obsOpts(rq), []byte("N"+parts[0]+"."+parts[1]), &nextMID))
 			}
 			for j, rq := range pendingApp {
 				delete(pendingApp, j)
@@ -413,6 +445,14 @@ func Exec(t *testing.T, sc Scenario, r *evid.Run) *evid.Failure {
 	return nil
 }
 
+// obsOpts: an observe registration is answered with an Observe option.
+func obsOpts(rq refcodec.Msg) []refcodec.Opt {
+	if _, ok := peer.FindOpt(rq, 6); ok {
+		return []refcodec.Opt{{Num: 6, Val: []byte{1}}}
+	}
+	return nil
+}
+
 func ids(h []hrec) []int {
 	var out []int
 	for _, x := range h {
@@ -464,14 +504,14 @@ func gen(t *rapid.T) Scenario {
 			e.Con = rapid.Bool().Draw(t, "con")
 			e.NoWait = i > 0 && sc.Events[i-1].Kind == "inject" && rapid.IntRange(0, 2).Draw(t, "nowait") > 0
 			if !allPlain {
-				e.Beh = rapid.SampledFrom([]string{"plain", "plain", "nested", "nested", "gated"}).Draw(t, "beh")
+				e.Beh = rapid.SampledFrom([]string{"plain", "plain", "nested", "nested", "nestedobs", "gated"}).Draw(t, "beh")
 			}
 			if rapid.IntRange(0, 3).Draw(t, "ownmid") == 0 {
 				// next to the library's own counter, or half the ID space away from it (where the
 				// library moves its counter when it notices the former)
 				e.OwnMID = rapid.SampledFrom([]int{1, 2, 2, 3, 4, 32768, 32769, 32770}).Draw(t, "ownmidoff")
 			}
-			if e.Beh == "nested" {
+			if e.Beh == "nested" || e.Beh == "nestedobs" {
 				e.Depth = rapid.IntRange(1, 3).Draw(t, "depth")
 				nested = append(nested, e.ID)
 			}
@@ -508,7 +548,7 @@ func nonTrivial(sc Scenario) bool {
 			if len(open) > 0 {
 				return true
 			}
-			if e.Beh == "nested" {
+			if e.Beh == "nested" || e.Beh == "nestedobs" {
 				open[e.ID] = true
 			}
 		case "answer":
@@ -552,7 +592,7 @@ func TestCheck(t *testing.T) {
 		return f
 	})
 	r.Main(evid.Meta{
-		Rule:        "a connection (datagram and stream, receive queue 0/1/16, generous request limits or the library's defaults of one outstanding request) in a synctest bubble; the scripted peer injects numbered requests whose handlers return at once, block on 1-3 sequential requests issued on the same connection, or block on a gate, or stay busy without blocking; message IDs of the peer's choosing, some of them equal or close to the IDs the library itself is about to use or half the ID space away; messages arrive one by one (quiescence in between) or in bursts that pile up in the receive queue; it answers the nested requests after delivering further messages, other goroutines issue requests meanwhile (some of them never acknowledged or answered by the peer, so that they time out), the connection may be closed at a generated point; Oracle: every message injected while the connection is open reaches the handler exactly once; every nested request completes with its own response (so later messages — among them the awaited response — are processed while a handler waits); every handler finishes once gates are open and nested requests answered; application requests complete; with only non-blocking handlers and no other user of the connection the dispatch order equals the arrival order. Non-trivial = a handler waits on a nested request while a further message arrives; distinct by scenario",
+		Rule:        "a connection (datagram and stream, receive queue 0/1/16, generous request limits or the library's defaults of one outstanding request) in a synctest bubble; the scripted peer injects numbered requests whose handlers return at once, block on 1-3 sequential requests (GETs or observe registrations) issued on the same connection, or block on a gate, or stay busy without blocking; message IDs of the peer's choosing, some of them equal or close to the IDs the library itself is about to use or half the ID space away; messages arrive one by one (quiescence in between) or in bursts that pile up in the receive queue; it answers the nested requests after delivering further messages, other goroutines issue requests meanwhile (some of them never acknowledged or answered by the peer, so that they time out), the connection may be closed at a generated point; Oracle: every message injected while the connection is open reaches the handler exactly once; every nested request completes with its own response (so later messages — among them the awaited response — are processed while a handler waits); every handler finishes once gates are open and nested requests answered; application requests complete; with only non-blocking handlers and no other user of the connection the dispatch order equals the arrival order. Non-trivial = a handler waits on a nested request while a further message arrives; distinct by scenario",
 		Assumptions: []string{"a handler that blocks on something other than its own connection (the gate) legitimately stalls later messages until it returns", "after close nothing is required of undelivered messages"},
 		Floor:       300,
 	}, eng)
